@@ -45,6 +45,7 @@ var Prop = &engine.Prop{
 		{Name: "garbage", Quick: 6400, Thorough: 768000, Fn: garbageCase},
 		{Name: "stream", Quick: 6400, Thorough: 768000, Fn: streamCase},
 		{Name: "conc", Quick: 80, Thorough: 4000, Fn: concCase},
+		{Name: "big-string", Quick: 16, Thorough: 400, Fn: bigStringCase},
 	},
 	Floors: map[string]int64{
 		"rt_sequences":           2000,
